@@ -28,6 +28,7 @@ import (
 	"testing/synctest"
 	"time"
 
+	"github.com/cilium/ebpf"
 	"github.com/daeuniverse/dae/common/consts"
 	ob "github.com/daeuniverse/dae/component/outbound"
 	componentdialer "github.com/daeuniverse/dae/component/outbound/dialer"
@@ -115,6 +116,9 @@ func c13NewDialer(u *c13Underlay) *componentdialer.Dialer {
 
 const c13Target = "198.51.100.7:4433"
 
+// set by the sequence runner only: the concurrency replays create thousands of short-lived pools
+var c13RealMaps = false
+
 type c13EpEnv struct {
 	pool      *UdpEndpointPool
 	t0        int64
@@ -128,6 +132,7 @@ type c13EpEnv struct {
 	handlerKO map[*UdpEndpoint]bool
 	tupleIdx  map[bpfTuplesKey]int
 	mu        sync.Mutex
+	connState *ebpf.Map // real conn-state map shared by both generations (nil: eBPF unavailable)
 	hookGid   int64
 	hookWant  map[string]bool
 	parked    *c13EpPark
@@ -151,11 +156,17 @@ func c13NewEpEnv() *c13EpEnv {
 		tupleIdx: map[bpfTuplesKey]int{}}
 	e.t0 = time.Now().UnixNano()
 	from := netip.MustParseAddrPort(c13Target)
+	if c13RealMaps {
+		e.connState = c13NewConnStateMap()
+	}
 	for i := 0; i < 2; i++ {
 		u := &c13Underlay{from: from}
 		e.under = append(e.under, u)
 		e.dialers = append(e.dialers, c13NewDialer(u))
 		x := c13NewTrk()
+		if e.connState != nil {
+			x.core.bpf.Store(&bpfObjects{bpfMaps: bpfMaps{ConnStateMap: e.connState}})
+		}
 		e.trks = append(e.trks, x)
 		e.cores = append(e.cores, x.core)
 		e.drains = append(e.drains, newControlPlaneDrainTracker())
@@ -515,7 +526,9 @@ func c13EpSplitCreate(e *c13EpEnv, s *VStream, stats *VStats, r *VRand, symOf ma
 
 func c13RunEpSeq(t *testing.T, s *VStream, stats *VStats, r *VRand) {
 	synctest.Test(t, func(t *testing.T) {
+		c13RealMaps = true
 		e := c13NewEpEnv()
+		c13RealMaps = false
 		verifYieldHook = e.hook
 		defer func() {
 			verifYieldHook = nil
@@ -696,7 +709,19 @@ func c13RunEpSeq(t *testing.T, s *VStream, stats *VStats, r *VRand) {
 				}
 				j := r.Intn(4)
 				a, b := c13PairAddrs(j)
-				e.eps[id].TrackUdpConnStateTuplePair(a, b)
+				ue := e.eps[id]
+				ue.udpConnStateMu.Lock()
+				live := !ue.udpConnStateClosed && ue.udpConnStateOwner != nil
+				ue.udpConnStateMu.Unlock()
+				if live && e.connState != nil {
+					// the datapath has created the flow's conn-state entries (the reverse one only once a
+					// reply was seen)
+					_ = e.connState.Put(bpfTuplesKeyFromAddrPorts(a, b, 17), uint64(1))
+					if r.Chance(0.7) {
+						_ = e.connState.Put(bpfTuplesKeyFromAddrPorts(b, a, 17), uint64(1))
+					}
+				}
+				ue.TrackUdpConnStateTuplePair(a, b)
 				stats.Inc("ep.track")
 				emit(fmt.Sprintf("ep track %d %d", id, j), "ok")
 			}
@@ -716,6 +741,11 @@ func c13RunEpSeq(t *testing.T, s *VStream, stats *VStats, r *VRand) {
 		time.Sleep(130 * time.Second)
 		synctest.Wait()
 		emit("ep adv 130000", "ok")
+		// every owner is gone now: no conn-state entry of a tracked tuple may be left in the kernel map
+		if e.connState != nil {
+			s.Emit("ep kleft", fmt.Sprint(len(c13KernelKeys(e.connState, e.tupleIdx))))
+			e.connState.Close()
+		}
 	})
 }
 
